@@ -181,6 +181,50 @@ def repeated_conversion(ctx, s2, s3, desc):
             ctx.fail("the parsed EEMS 2.0 commands translate to other commands than the mapped MPilot file holds: %r vs %r" % diff, desc)
 
 
+def mixed_dropped(rng, env, count):
+    """mixed files - at least one EEMS 2.0 command - in which commands with MPilot names (result name given or not) carry the arguments the mapping drops:
+    "output-file arguments dropped" and "the new field name ... as result name" hold for EVERY command of a file that is read as EEMS 2.0, so the loaded
+    program is the one of the MPilot file without them (PrintVars prints instead of writing a file; EEMSWrite loses its required file name and is rejected
+    in both forms).  Directed ones, and random ones: which commands carry which of the two, where, in which order"""
+    f = env["in"]
+    fz = [("TrueThreshold", 4), ("FalseThreshold", 1)]
+    out = []
+    rd = lambda col: (None, "READ", [("InFileName", f), ("InFieldName", Name(col))])
+    rd3 = lambda col: (col, "EEMSRead", [("InFileName", f), ("InFieldName", Name(col))])
+    # PrintVars to a file / to the screen; a reader with an unused new field name; a writer
+    out.append(([rd("a"), ("Report", "PrintVars", [("InFieldNames", [Name("a")]), ("OutFileName", "report.txt")])], [rd3("a"), ("Report", "PrintVars", [("InFieldNames", [Name("a")])])]))
+    out.append(([rd("a"), ("x", "EEMSRead", [("InFileName", f), ("InFieldName", Name("b")), ("NewFieldName", Name("y"))]), (None, "SUM", [("InFieldNames", [Name("a"), Name("x")]), ("NewFieldName", Name("S"))])],
+                [rd3("a"), ("x", "EEMSRead", [("InFileName", f), ("InFieldName", Name("b"))]), ("S", "Sum", [("InFieldNames", [Name("a"), Name("x")])])]))
+    out.append(([rd("a"), ("W", "EEMSWrite", [("OutFileName", "written.csv"), ("OutFieldNames", [Name("a")])])], [rd3("a"), ("W", "EEMSWrite", [("OutFieldNames", [Name("a")])])]))
+    # an MPilot-named command without a result name: named by its new field name, which is dropped like in any other command
+    out.append(([rd("a"), (None, "Copy", [("InFieldName", Name("a")), ("NewFieldName", Name("C")), ("OutFileName", "c.csv")]), ("F", "CvtToFuzzy", [("OutFileName", "f.csv"), ("InFieldName", Name("C"))] + fz)],
+                [rd3("a"), ("C", "Copy", [("InFieldName", Name("a"))]), ("F", "CvtToFuzzy", [("InFieldName", Name("C"))] + fz)]))
+    # the only EEMS 2.0 command comes last
+    out.append(([("a", "EEMSRead", [("NewFieldName", Name("zz")), ("InFileName", f), ("InFieldName", Name("a")), ("OutFileName", "")]), (None, "COPYFIELD", [("InFieldName", Name("a")), ("NewFieldName", Name("C"))])],
+                [rd3("a"), ("C", "Copy", [("InFieldName", Name("a"))])]))
+    for _ in range(count):
+        v2, v3 = [rd("a"), rd("b")] if rng.random() < 0.7 else [rd3("a"), rd("b")], [rd3("a"), rd3("b")]
+        pool = ["a", "b"]
+        for k in range(rng.randrange(1, 5)):
+            name = "M%d" % k
+            cname, args = rng.choice([("Copy", [("InFieldName", Name(rng.choice(pool)))]), ("Sum", [("InFieldNames", [Name(rng.choice(pool)), Name(rng.choice(pool))])]),
+                                      ("Normalize", [("InFieldName", Name(rng.choice(pool)))]), ("PrintVars", [("InFieldNames", [Name(rng.choice(pool))])]),
+                                      ("EEMSRead", [("InFileName", f), ("InFieldName", Name("b"))])])
+            a2 = list(args)
+            named = rng.random() < 0.6
+            if not named or rng.random() < 0.5:
+                a2.append(("NewFieldName", Name(name if not named else "Unused%d" % k)))
+            if rng.random() < 0.6:
+                a2.append(("OutFileName", rng.choice(["o%d.csv" % k, "dir/o.txt", ""])))
+            rng.shuffle(a2)
+            v2.append((name if named else None, cname, a2))
+            v3.append((name, cname, [x for x in a2 if x[0] not in ("NewFieldName", "OutFileName")]))
+            if cname != "PrintVars":
+                pool.append(name)
+        out.append((v2, v3))
+    return out
+
+
 def dump_program(p):
     parts = []
     for name, c in p.commands.items():
@@ -311,6 +355,7 @@ def run(ctx):
         except KeyError:
             continue
         models.append((v2, v3, "empty-new-field-name" if i % 3 == 1 else "random"))
+    models += [(v2, v3, "mixed-dropped-arguments") for v2, v3 in mixed_dropped(rng, env, ctx.budget(12, 300))]
     for v2, v3, how_made in models:
         s2 = Scenario(v2, wd=tmp, libs=LIBS)
         s3 = Scenario(v3, wd=tmp, libs=LIBS) if v3 is not None else None
